@@ -22,7 +22,7 @@ RULE = ('W in {1 home entry, 1 home + 1 volume entry, 2 home entries} x M subset
         'non-UTF-8, no Path, no DeletionDate, bad date, the same two sharing the Path of a well-formed entry, info without payload, payload without info, directory named x.trashinfo} x all permutations of info/ (<= 4!) x '
         'readers {list, restore date|path|none, rm exact, rm *, empty, empty 0, empty 7}; non-trivial = a malformed neighbour was read before a well-formed entry; '
         'distinct = (reader, neighbour kinds, outcome)')
-MK = ['nontrashinfo', 'empty', 'header', 'binary', 'nonutf8', 'nopath', 'nodate', 'baddate', 'nopayload', 'orphan', 'dirinfo', 'nodate-samepath', 'baddate-samepath', 'dangling-link-info', 'loop-link-info', 'tzdate']
+MK = ['nontrashinfo', 'empty', 'header', 'binary', 'nonutf8', 'nopath', 'nodate', 'baddate', 'nopayload', 'orphan', 'dirinfo', 'nodate-samepath', 'baddate-samepath', 'dangling-link-info', 'loop-link-info', 'tzdate', 'noname-empty', 'noname-valid']
 READERS = ['list', 'restore-date', 'restore-path', 'restore-none', 'rm-exact', 'rm-star', 'empty', 'empty0', 'empty7']
 WSETS = ['h1', 'h1+v1', 'h2']
 TD = scen.HOME_TRASH
@@ -88,6 +88,10 @@ def build(ws, ms):
             scen.add_trashed(W, TD, 'mid_1', None, raw='[Trash Info]\nPath=/home/u/w/mid\n')
         elif m == 'baddate-samepath':
             scen.add_trashed(W, TD, 'mid_2', None, raw='[Trash Info]\nPath=/home/u/w/mid\nDeletionDate=2024-13-45T99:00:00\n')
+        elif m == 'noname-empty':
+            W.file(TD + '/info/.trashinfo', '')
+        elif m == 'noname-valid':
+            W.file(TD + '/info/.trashinfo', '[Trash Info]\nPath=/home/u/w/noname\nDeletionDate=2001-01-01T00:00:00\n')
         elif m == 'dangling-link-info':
             W.link(TD + '/info/g-dangling.trashinfo', 'no-such-file')
         elif m == 'loop-link-info':
